@@ -95,6 +95,23 @@ func (x *Exec) eval(fc *frameCtx, st, old *State, e *CExpr, b binds) TV {
 		if v, ok := fc.params[e.Name]; ok {
 			return v
 		}
+		if strings.HasPrefix(e.Name, "result") && len(e.Name) == 7 && e.Name[6] >= '0' && e.Name[6] <= '9' {
+			k := int(e.Name[6] - '0')
+			tv, ok := fc.result.(TupleV)
+			if !ok || k >= len(tv) {
+				oos("%s used but result is not a tuple", e.Name)
+			}
+			return TV{tv[k], fc.fn.Signature.Results().At(k).Type()}
+		}
+		if strings.HasPrefix(e.Name, "arg") && len(e.Name) == 4 && fc.callArgs != nil {
+			k := int(e.Name[3] - '0')
+			if k < len(fc.callArgs) {
+				return fc.callArgs[k]
+			}
+		}
+		if g := x.globalTV(fc, st, e.Name); g != nil {
+			return *g
+		}
 		if e.Name == "result" {
 			if fc.result == nil {
 				oos("result used where there is none")
@@ -127,7 +144,9 @@ func (x *Exec) eval(fc *frameCtx, st, old *State, e *CExpr, b binds) TV {
 			vars = append(vars, c)
 			nb[v] = TV{c, tInt}
 		}
+		x.inQuant++
 		body := x.eval(fc, st, old, e.Args[0], nb).V.(*Term)
+		x.inQuant--
 		if e.Kind == "forall" {
 			return TV{tForall(vars, body), tBoolT}
 		}
@@ -189,7 +208,15 @@ func (x *Exec) loadQuiet(st *State, p PtrV) Val {
 			ts[i] = mkApp("select", c.Sort, mkApp("select", arrSort(c.Sort), x.heapGet(st, p.Key+c.Suffix, arrSort(arrSort(c.Sort))), p.Ref), p.Idx)
 		}
 	}
-	return unflatten(p.T, ts)
+	v := unflatten(p.T, ts)
+	if x.inQuant == 0 {
+		// range facts of the stored type are axioms of the heap model
+		if lo, hi, ok := intRange(p.T); ok {
+			tv := v.(*Term)
+			x.Sc.Assert(tAnd(tLe(mkBig(lo), tv), tLe(tv, mkBig(hi))))
+		}
+	}
+	return v
 }
 
 func (x *Exec) evalSel(st *State, base TV, name string, e *CExpr) TV {
@@ -392,4 +419,37 @@ func (x *Exec) refOf(tv TV) *Term {
 		return v.Arr
 	}
 	panic(fmt.Sprintf("refOf %T", tv.V))
+}
+
+// globalTV resolves a package-level variable of the function's (or contract's) package.
+func (x *Exec) globalTV(fc *frameCtx, st *State, name string) *TV {
+	pkg := fc.pkgPath
+	if pkg == "" && fc.fn != nil {
+		pkg = funcPkgPath(fc.fn)
+	}
+	sp := x.W.SSAPkgs[pkg]
+	if sp == nil {
+		return nil
+	}
+	g, ok := sp.Members[name].(*ssa.Global)
+	if !ok {
+		return nil
+	}
+	t := g.Type().(*types.Pointer).Elem()
+	p := x.globalPtr(g)
+	switch pv := p.(type) {
+	case PtrV:
+		if pv.Kind != "cell" {
+			return nil
+		}
+		cs := compsOf(pv.T)
+		ts := make([]*Term, len(cs))
+		for i, c := range cs {
+			ts[i] = mkApp("select", c.Sort, x.heapGet(st, pv.Key+c.Suffix, arrSort(c.Sort)), mkInt(0))
+		}
+		return &TV{unflatten(pv.T, ts), t}
+	case *Term:
+		return &TV{pv, t}
+	}
+	return nil
 }
